@@ -505,3 +505,115 @@ pub proof fn lemma_ascii_prefix_boundary(s: Seq<u8>, pos: int)
     }
 }
 } // verus!
+verus! {
+// ---------------------------------------------------------------------------------------------
+// "valid prefix" reasoning: byte-at-a-time producers of UTF-8 (Tokens::new)
+// ---------------------------------------------------------------------------------------------
+
+/// s is well-formed text followed by the octets p of a scalar in progress
+pub open spec fn vp(s: Seq<u8>, p: Seq<u8>) -> bool {
+    s.len() >= p.len() && valid_utf8(s.subrange(0, s.len() - p.len())) && s.subrange(s.len() - p.len(), s.len() as int) == p
+    && pending_ok(p)
+}
+
+pub proof fn lemma_vp_step(s: Seq<u8>, p: Seq<u8>, b: u8)
+    requires vp(s, p), good_step(p, b)
+    ensures vp(s.push(b), acc_step(p, b).0)
+{
+    let v = s.subrange(0, s.len() - p.len());
+    let s2 = s.push(b);
+    let p2 = acc_step(p, b).0;
+    if p.len() == 0 {
+        assert(v =~= s);
+        if b < 0x80 {
+            lemma_ascii_valid(b);
+            valid_utf8_concat(s, seq![b]);
+            assert(s + seq![b] =~= s2);
+            assert(s2.subrange(0, s2.len() as int) =~= s2);
+            assert(s2.subrange(s2.len() as int, s2.len() as int) =~= Seq::<u8>::empty());
+        } else {
+            assert(p2 == seq![b]);
+            assert(s2.subrange(0, s2.len() - 1) =~= s);
+            assert(s2.subrange(s2.len() - 1, s2.len() as int) =~= seq![b]);
+        }
+    } else {
+        let q = p.push(b);
+        assert(s2.subrange(s2.len() - q.len(), s2.len() as int) =~= q);
+        assert(s2.subrange(0, s2.len() - q.len()) =~= v);
+        if p.len() + 1 == lead_width(p[0]) {
+            assert(complete_ok(q));
+            lemma_complete_scalar_valid(q);
+            valid_utf8_concat(v, q);
+            assert(v + q =~= s2);
+            assert(s2.subrange(0, s2.len() as int) =~= s2);
+            assert(s2.subrange(s2.len() as int, s2.len() as int) =~= Seq::<u8>::empty());
+        } else {
+            assert(p2 == q);
+        }
+    }
+}
+
+/// in well-formed text every next byte continues well-formed text
+pub proof fn lemma_valid_next_good(s: Seq<u8>, i: int)
+    requires valid_utf8(s), 0 <= i < s.len()
+    ensures good_step(scan(Seq::empty(), s.subrange(0, i)).0, s[i]),
+        scan(Seq::empty(), s.subrange(0, i + 1)).0 == acc_step(scan(Seq::empty(), s.subrange(0, i)).0, s[i]).0,
+    decreases s.len()
+{
+    assert(s.subrange(0, i + 1).drop_last() =~= s.subrange(0, i));
+    let n = length_of_first_scalar(s);
+    let rest = pop_first_scalar(s);
+    if i < n {
+        if i == 0 {
+            assert(s.subrange(0, 0) =~= Seq::<u8>::empty());
+            if n >= 2 { lemma_second_ok(s); }
+        } else {
+            lemma_scan_partial_scalar(s, i);
+            lemma_second_ok(s);
+            assert(s.subrange(0, i)[0] == s[0]);
+            if i >= 2 { assert(s.subrange(0, i)[1] == s[1]); }
+        }
+    } else {
+        lemma_scan_one_scalar(s);
+        lemma_valid_next_good(rest, i - n);
+        lemma_scan_append(Seq::empty(), s.subrange(0, n), rest.subrange(0, i - n));
+        assert(s.subrange(0, n) + rest.subrange(0, i - n) =~= s.subrange(0, i));
+        assert(s[i] == rest[i - n]);
+    }
+}
+
+/// a boundary of a suffix that starts on a boundary is a boundary of the whole text
+pub proof fn lemma_boundary_add(s: Seq<u8>, i: int, j: int)
+    requires valid_utf8(s), 0 <= i <= s.len(), is_char_boundary(s, i), 0 <= j <= s.len() - i,
+        valid_utf8(s.subrange(i, s.len() as int)), is_char_boundary(s.subrange(i, s.len() as int), j),
+    ensures is_char_boundary(s, i + j)
+    decreases i
+{
+    if i == 0 {
+        assert(s.subrange(0, s.len() as int) =~= s);
+    } else {
+        let n = length_of_first_scalar(s);
+        let rest = pop_first_scalar(s);
+        assert(is_char_boundary(rest, i - n));
+        assert(rest.subrange(i - n, rest.len() as int) =~= s.subrange(i, s.len() as int));
+        lemma_boundary_add(rest, i - n, j);
+        if i + j > 0 { }
+    }
+}
+
+/// an ASCII byte of well-formed text sits between two character boundaries
+pub proof fn lemma_ascii_boundaries(s: Seq<u8>, i: int)
+    requires valid_utf8(s), 0 <= i < s.len(), s[i] < 0x80
+    ensures is_char_boundary(s, i), is_char_boundary(s, i + 1)
+{
+    is_char_boundary_iff_not_is_continuation_byte(s, i);
+    valid_utf8_split(s, i);
+    let t = s.subrange(i, s.len() as int);
+    assert(t[0] == s[i]);
+    assert(is_leading_byte_width_1(t[0]));
+    assert(length_of_first_scalar(t) == 1);
+    assert(is_char_boundary(pop_first_scalar(t), 0));
+    assert(is_char_boundary(t, 1));
+    lemma_boundary_add(s, i, 1);
+}
+} // verus!
